@@ -1,0 +1,28 @@
+"""Verification hook points (no-ops unless ``PYNETDICOM_VERIF=1`` is set in the environment).
+
+A hook site calls ``point(name, obj, **fields)``. With the guard off ``ENABLED`` is ``False``
+and the sites do nothing. With the guard on, an external harness may install a controller
+(any callable with the same signature) that records the call and/or parks the calling thread.
+"""
+
+import os
+from typing import Any, Callable
+
+ENABLED: bool = os.environ.get("PYNETDICOM_VERIF") == "1"
+
+_controller: Callable[..., Any] | None = None
+
+
+def install(controller: Callable[..., Any] | None) -> None:
+    """Install (or remove with ``None``) the controller called at every hook point."""
+    global _controller
+    _controller = controller
+
+
+def point(name: str, obj: Any = None, **fields: Any) -> Any:
+    """A hook point: forwards to the installed controller, if any."""
+    ctl = _controller
+    if ctl is None:
+        return None
+
+    return ctl(name, obj, **fields)
